@@ -73,5 +73,58 @@ def replay(w):
         return {'reproduced': True, 'signature': 'mrf-step-raises', 'observed': {'raised': repr(exc)}}
 
 
+def _bits(x):
+    return struct.pack('>d', float(x)).hex()
+
+
 def validate(witnesses):
-    return {'checked': 0, 'agree': 0, 'skipped': len(witnesses), 'disagree': []}
+    """binary64 path witnesses: the engine's IEEE model vs. the real NumPy code, bit for bit."""
+    from fast_ticc.admm import solver
+    from fast_ticc import graphical_lasso as gl, matrix_compression as mc
+    from fast_ticc.containers import arguments, model_state
+    checked = agree = skipped = 0
+    disagree = []
+    for w in witnesses:
+        nt, inp, out = w.get('notes') or {}, w.get('inputs') or {}, w.get('outputs') or {}
+        try:
+            if nt.get('kind') == 'eig_fp' and 'theta_diag' in out:
+                n, rho = int(nt['n']), float(nt['rho'])
+                d = [_fp(inp.get('d_%d' % i), 0.0) for i in range(n)]
+                with np.errstate(all='ignore'):
+                    th = mc.reinflate_matrix(solver.x_update_prox(-np.diag(np.array(d)), np.zeros((n, n)), rho))
+                # eigh may order eigenvalues differently: compare as multisets of bit patterns
+                got = sorted(_bits(v) for v in np.diag(th))
+                want = sorted(_bits(_fp(v)) for v in out['theta_diag'])
+                checked += 1
+                if got == want:
+                    agree += 1
+                else:
+                    disagree.append({'d': d, 'rho': rho, 'real': got, 'engine': want})
+            elif nt.get('kind') == 'filter' and 'filtered' in out:
+                n = int(nt['n'])
+                eps = _fp(inp.get('eps'), 0.0)
+                L = n * (n + 1) // 2
+                v = np.array([_fp(inp.get('v_%d' % k), 0.0) for k in range(L)], dtype=float)
+                args = arguments.UserArguments(sparsity_weight=0.1, iteration_limit=1, label_switching_cost=1.0,
+                                               min_cluster_size=1, min_meaningful_covariance=eps, num_clusters=1,
+                                               num_processors=1, window_size=1, biased_covariance=False)
+                st = model_state.ModelState.empty_model(args, np.zeros((1, n)))
+                with np.errstate(all='ignore'):
+                    M = gl._reconstruct_optimized_matrix(st, v)
+                got = [_bits(x) for x in np.asarray(M).ravel()]
+                want = [_bits(_fp(x)) for row in out['filtered'] for x in (row if isinstance(row, list) else [row])]
+                checked += 1
+                # NaN payloads may legitimately differ in the quiet bit through x+0: compare NaN-ness there
+                same = all(a == b or (a[:3] in ('7ff', 'fff') and b[:3] in ('7ff', 'fff') and
+                                      np.isnan(struct.unpack('>d', bytes.fromhex(a))[0]) and
+                                      np.isnan(struct.unpack('>d', bytes.fromhex(b))[0])) for a, b in zip(got, want))
+                if same and len(got) == len(want):
+                    agree += 1
+                else:
+                    disagree.append({'eps': eps, 'v': v.tolist(), 'real': got, 'engine': want})
+            else:
+                skipped += 1
+        except Exception as exc:
+            disagree.append({'raised': repr(exc), 'notes': nt})
+            checked += 1
+    return {'checked': checked, 'agree': agree, 'skipped': skipped, 'disagree': disagree[:5]}
